@@ -1,9 +1,11 @@
 """C15 — a time-series model receives exactly its context window plus selected rows.
 
-correspondence  P: real plan_query on statements with one or several time-series joins (`SELECT … FROM int.tbl ta JOIN
+correspondence  P/D: real plan_query on statements with one or several time-series joins (`SELECT … FROM int.tbl ta JOIN
                    mindsdb.tp3 tb WHERE … [LIMIT n]`, sides of UNION [ALL], sub-selects, INSERT/CREATE TABLE sources);
                    per join, found through the step references: (partition WHERE, fetch selects' WHERE trees + limits,
-                   output_time_filter, limit step) vs Lean planTS with the variant probed by tools/extract/x_c15.py
+                   output_time_filter, limit step) vs Lean planTS with the variant probed by tools/extract/x_c15.py;
+                   D lines: the dbt form (data operand = sub-select with its own WHERE / LIMIT / ORDER BY …, LATEST condition
+                   and LIMIT outside) vs Lean planDbt (adaptDbt); catalog spellings of columns / models in random case
                 E/F: the real fetch selects executed by sqlite3 on small tables (integers or ISO dates; NULL partition
                    records with plain / null-safe `$var` substitution) vs Lean evalSel (ties the row semantics)
 impl-level probe : the property's own oracle on the real code, per join: union of the fetched rows per partition record ==
@@ -25,6 +27,7 @@ THEOREMS = [_T + n for n in (
     'C15_null_partition_empty', 'C15_rows_nullsafe', 'C15_reject_where_fixed', 'C15_validateDeep_iff',
     'C15_rows_rev_fixed',
     'C15_live_variant', 'C15_reject_where', 'C15_rows_rev', 'C15_rows_spellings', 'C15_rows_stmt',
+    'C15_dbt_limit', 'C15_dbt_rows', 'C15_dbt_reject_inner', 'C15_witness_dbt_outer_ignored', 'C15_witness_dbt_outer',
     'C15_witness_1', 'C15_witness_null', 'C15_full_false')]
 ASSUME = [
     'plan_timeseries_predictor / ts_utils are hand-modelled (MindsVerif.TS.planTS cfg); tie = plan correspondence stream (exact WHERE trees of every generated select, per time-series join of the statement)',
@@ -35,7 +38,9 @@ ASSUME = [
     'for an exact time (`t = c`) the specification is "the window most recent rows up to c" (the parenthesis of the property text): TC.cond (.eq c) = false',
     'the driver instantiates the value domain with Int; ISO date strings of the generated queries/tables are mapped to day numbers (order isomorphism) before they reach the model',
     'statements with several time-series joins: C15_rows_stmt states the per-join property for a list of joins planned one by one; that the real planner gives every join its own partition step and selects is checked by the probe (step references), not proved',
-    'plan glue (FROM table, SELECT *, integration, step wiring, join side) is checked by the probe, not proved; adapt_dbt_query and the ambiguity check of join identifiers are not modelled (the probe checks that an unqualified column raises PlanningException)',
+    'adapt_dbt_query is modelled as adaptDbt on the abstract query (LATEST conditions of the outer WHERE appended, limits merged by min); its alias bookkeeping (stripping / adding table aliases, integration prefix) is below the abstraction and is exercised by the dbt stream only',
+    'column and predictor names are matched case-insensitively: the abstraction absW classifies names by lower-case equality, the streams spell the catalog entries and the query occurrences in independent random case',
+    'plan glue (FROM table, SELECT *, integration, step wiring, join side) is checked by the probe, not proved; the ambiguity check of join identifiers is not modelled (the probe checks that an unqualified column raises PlanningException)',
 ]
 
 TIME = 't'
@@ -69,8 +74,31 @@ def meta_dict(case):
     if case.get('meta'):        # name-collision stream: its own order / group column names
         return {'tp3': dict(case['meta'], timeseries=True, window=case['window'])}
     models = case.get('models') or {'tp3': case['window']}      # predictor name -> window
-    return {name: {'timeseries': True, 'order_by_column': TIME,
-                   'group_by_columns': GROUPS[:case['nG']], 'window': w} for name, w in models.items()}
+    cat = case.get('cat') or dict(time=TIME, groups=GROUPS, names={})   # how the catalog spells the columns / models
+    return {cat.get('names', {}).get(name, name): {'timeseries': True, 'order_by_column': cat['time'],
+                                                     'group_by_columns': cat['groups'][:case['nG']], 'window': w}
+            for name, w in models.items()}
+
+
+def recase(rng, word):
+    """a random case variant of an identifier"""
+    return ''.join(ch.upper() if rng.random() < 0.5 else ch.lower() for ch in word)
+
+
+def gen_cat(rng):
+    """catalog spelling of the order column, the group columns and the predictor names (the queries spell them
+    independently: column matching is case-insensitive)"""
+    if rng.random() < 0.5:
+        return None
+    return dict(time=recase(rng, TIME), groups=[recase(rng, g) for g in GROUPS],
+                names={n: recase(rng, n) for n in ('tp3', 'tp4')})
+
+
+def recase_sql(rng, sql):
+    """re-spell the column references `alias.t|g|h` and the predictor names of a generated statement"""
+    sql = re.sub(r'(?<=\.)([tgh])\b', lambda m: recase(rng, m.group(1)), sql, flags=re.I)
+    sql = re.sub(r'(?<![\w.])([tgh])(?=\s*(?:[<>=]|in\b|between\b))', lambda m: recase(rng, m.group(1)), sql, flags=re.I)
+    return re.sub(r'(?<=mindsdb\.)(tp[34])\b', lambda m: recase(rng, m.group(1)), sql)
 
 
 NAME_SETS = [('saledate', ['vendor_id', 'type']), ('pickup_hour', ['day', 'Region']), ('Ts', ['grp', 'sub_grp'])]
@@ -181,8 +209,8 @@ def absW(node, nG):
         if isinstance(v, int):
             return '(c %d)' % v
         m = isinstance(v, str) and re.fullmatch(r'\$var\[(\w+)\]', v)
-        if m and m.group(1) in GROUPS:
-            return '(v %d)' % GROUPS.index(m.group(1))
+        if m and m.group(1).lower() in GROUPS:
+            return '(v %d)' % GROUPS.index(m.group(1).lower())
         m = isinstance(v, str) and re.fullmatch(DATE_RE, v)
         if m:       # ISO date strings: order-isomorphic to the day number (the model's value domain is abstract)
             return '(c %d)' % int(m.group(1))
@@ -292,6 +320,11 @@ def canon_real(case):
 
 
 def model_line(case):
+    if case.get('dbt'):
+        iw, ow = case['absw_dbt']
+        lim = lambda v: '-' if v is None else str(v)
+        return 'D %d %d %s %s %s %s | %s' % (case['nG'], case['window'], case.get('flags', '0000'), lim(case['ilim']),
+                                             lim(case['olim']), iw or '-', ow or '-')
     w = case.get('absw')
     fl = case.get('flags', '0000')
     lim = case.get('limit')
@@ -384,7 +417,7 @@ def nest(rng, leaves):
 REV_CLASSES = ['rev_lt', 'rev_le', 'rev_gt', 'rev_ge', 'rev_eq', 'rev_gtLatest', 'rev_eqLatest']
 
 
-def gen_case(rng, kind=None, nG=None, window=None, model='tp3', no_limit=False):
+def gen_case(rng, kind=None, nG=None, window=None, model='tp3', no_limit=False, cat=False):
     """kind: 'dom' (time condition spelled column-first), 'rev' (the mirrored spellings: constant or LATEST on the
     left), 'rej' (must be rejected), 'misc'"""
     nG = rng.choice([0, 1, 1, 2, 2]) if nG is None else nG
@@ -491,6 +524,11 @@ def gen_case(rng, kind=None, nG=None, window=None, model='tp3', no_limit=False):
         sql += ' limit %d' % lim
     if case['flags'] == '0001':
         sql += ' offset %d' % rng.randrange(0, 3)
+    if cat is False:
+        cat = gen_cat(rng)
+    if cat is not None:
+        case['cat'] = cat
+        sql = recase_sql(rng, sql)
     case.update(sql=sql, limit=lim, cls=cls if kind in ('dom', 'rev') else None, absw=absw)
     case['_tc'] = tc
     case['_pfs'] = pfs
@@ -504,12 +542,13 @@ def gen_multi(rng):
     time conditions / partition filters. Returns one case per join (same statement text, `join_index`)."""
     nG = rng.choice([0, 1, 1, 1, 2, 2])
     models = {'tp3': rng.choice([1, 2, 3]), 'tp4': rng.choice([0, 2, 4])}
+    cat = gen_cat(rng)
     k = rng.choice([1, 2, 2, 2, 3])
     parts = []
     for i in range(k):
         model = rng.choice(sorted(models))
         c = gen_case(rng, kind=rng.choice(['dom', 'dom', 'rev']), nG=nG, window=models[model], model=model,
-                     no_limit=True)
+                     no_limit=True, cat=cat)
         parts.append(c)
     texts = []
     for i, c in enumerate(parts):
@@ -530,6 +569,113 @@ def gen_multi(rng):
         c = dict(c, part_sql=c['sql'], sql=stmt, join_index=i, n_joins=k, models=models, multi=True)
         out.append(c)
     return out
+
+
+def min_limit(a, b):
+    return a if b is None else (b if a is None else min(a, b))
+
+
+LATEST_CLASSES = ('gtLatest', 'eqLatest', 'rev_gtLatest', 'rev_eqLatest')
+
+
+def gen_dbt(rng):
+    """the dbt form: the data operand is a sub-select with its own WHERE / LIMIT (/ ORDER BY …), the model on either
+    side, the LATEST condition (if any) in the outer WHERE, an outer LIMIT or not.
+    kinds: in-domain ('dom'/'rev', row-set + LIMIT = min(inner, outer) oracle), 'rej' (clauses of the sub-select that must be
+    rejected), 'dbtx' (clauses of the OUTER query other than LATEST conditions and LIMIT: must be honoured or rejected)."""
+    nG = rng.choice([0, 1, 1, 2])
+    window = rng.choice([0, 1, 2, 3])
+    cat = gen_cat(rng)
+    inner_alias = rng.choice(['', '', ' ta'])
+    qual = rng.choice(['', '', ('ta.' if inner_alias else 'tbl.')])
+    cls = rng.choice(TCLASSES + REV_CLASSES)
+    tc = gen_tc(rng, cls) if cls != 'none' else None
+    inner_leaves, outer_leaves, pfs = [], [], []
+    time_outside = tc is not None and cls in LATEST_CLASSES and rng.random() < 0.8
+    if tc is not None:
+        (outer_leaves if time_outside else inner_leaves).append((tc[0], tc[3]))
+    for _ in range(rng.choice([0, 1, 1, 2]) if nG else 0):
+        pf = gen_pf(rng, nG)
+        pfs.append(pf[1])
+        inner_leaves.append((pf[0], pf[2]))
+    rng.shuffle(inner_leaves)
+    ilim = rng.choice([None, None, 0, 1, 3, 5, 7])
+    olim = rng.choice([None, None, 0, 2, 4, 9])
+    kind = rng.choice(['dom'] * 6 + ['rej', 'dbtx', 'dbtx'])
+    case = dict(kind='rev' if cls.startswith('rev_') else 'dom', nG=nG, window=window, flags='0000', expect=None,
+                cls=cls, dbt=True, dates=False, ilim=ilim, olim=olim, limit=min_limit(ilim, olim), absw=None)
+    inner_tail, outer_tail, outer_extra = '', '', None
+    if kind == 'rej':
+        r = rng.choice(['dbt_inner_order', 'dbt_inner_group', 'dbt_inner_offset', 'dbt_inner_foreign', 'dbt_two_time'])
+        case.update(kind='rej', rej=r, expect='planning', cls=None)
+        tq = qual or ('ta.' if inner_alias else 'tbl.')
+        if r == 'dbt_inner_order':
+            inner_tail = ' order by %st' % tq; case['flags'] = '1000'
+        elif r == 'dbt_inner_group':
+            inner_tail = ' group by %sg' % tq; case['flags'] = '0100'
+        elif r == 'dbt_inner_offset':
+            ilim = case['ilim'] = ilim if ilim is not None else 3
+            inner_tail = ' offset 1'; case['flags'] = '0001'
+        elif r == 'dbt_inner_foreign':
+            inner_leaves.append(('{a}x = 1', None))
+        else:
+            inner_leaves = [l for l in inner_leaves if '(i t)' not in (l[1] or '')] + [('{a}t > 1', None)]
+            outer_leaves = [('{a}t > LATEST', None)]
+    elif kind == 'dbtx':
+        what = rng.choice(['where_pf', 'where_time', 'where_foreign', 'order', 'group', 'offset'])
+        case.update(kind='dbtx', what=what, cls=None)
+        if what == 'where_pf':
+            outer_extra = 't1.%s = 1' % (GROUPS[0] if nG else 't')
+        elif what == 'where_time':
+            outer_extra = 't1.t > 2'
+            inner_leaves = [l for l in inner_leaves if '(i t)' not in (l[1] or '')]
+            outer_leaves = []
+        elif what == 'where_foreign':
+            outer_extra = 't1.x = 3'
+        elif what == 'order':
+            outer_tail = ' order by t1.t'
+        elif what == 'group':
+            outer_tail = ' group by t1.g'
+        else:
+            olim = case['olim'] = olim if olim is not None else 4
+            outer_tail = ' offset 1'
+    def where_of(leaves, q):
+        if not leaves:
+            return ''
+        ws, _ = nest(rng, [(a, b or '?') for a, b in leaves])
+        return ' where ' + re.sub(r'\{a\}', q, ws)
+    inner = 'select * from int.tbl%s%s%s%s' % (inner_alias, where_of(inner_leaves, qual),
+                                               '' if ilim is None else ' limit %d' % ilim, inner_tail)
+    o_leaves = list(outer_leaves) + ([(outer_extra, None)] if outer_extra else [])
+    rng.shuffle(o_leaves)
+    model_left = rng.random() < 0.4
+    frm = ('mindsdb.tp3 tb join (%s) as t1' if model_left else '(%s) as t1 join mindsdb.tp3 tb') % inner
+    def outer_sql(leaves, tail):
+        return 'select * from ' + frm + where_of(leaves, 't1.') + ('' if olim is None else ' limit %d' % olim) + tail
+    sql = outer_sql(o_leaves, outer_tail)
+    case.update(model_left=model_left, _tc=tc, _pfs=pfs)
+    if kind == 'dbtx':      # the same statement without the outer clause in question
+        case['sql_without'] = outer_sql(list(outer_leaves), '')
+    if tc is not None:
+        case['otf_sql'] = 'select * from a where ' + tc[0].replace('{a}', 'a.')
+    if cat is not None:
+        case['cat'] = cat
+        sql = recase_sql(rng, sql)
+        if 'sql_without' in case:
+            case['sql_without'] = recase_sql(rng, case['sql_without'])
+    case['sql'] = sql
+    return case
+
+
+def dbt_abs(q, nG):
+    """(inner flags, inner limit, outer limit, inner W, outer W) abstracted from a parsed dbt statement"""
+    _, _, _, _, ast, _ = _imports()
+    j = q.from_table
+    inner = j.left if isinstance(j.left, ast.Select) else j.right
+    flags = '%d%d%d%d' % (bool(inner.order_by), bool(inner.group_by), inner.having is not None, inner.offset is not None)
+    lim = lambda x: None if x is None else x.value
+    return (flags, lim(inner.limit), lim(q.limit),
+            None if inner.where is None else absW(inner.where, nG), None if q.where is None else absW(q.where, nG))
 
 
 def gen_table(rng, deep):
@@ -564,12 +710,12 @@ def substitute(query, pvals, nullsafe=False):
         if nullsafe and isinstance(n, ast.BinaryOperation) and n.op == '=' and isinstance(n.args[1], ast.Constant) \
                 and isinstance(n.args[1].value, str):
             m = re.fullmatch(r'\$var\[(\w+)\]', n.args[1].value)
-            if m and pvals[m.group(1)] is None:
+            if m and pvals[m.group(1).lower()] is None:
                 return ast.BinaryOperation('is', args=[n.args[0], ast.NullConstant()])
         if isinstance(n, ast.Constant) and isinstance(n.value, str):
             m = re.fullmatch(r'\$var\[(\w+)\]', n.value)
             if m:
-                n.value = pvals[m.group(1)]
+                n.value = pvals[m.group(1).lower()]
     query_traversal(q, cb)
     if nullsafe and q.where is not None:
         r = cb(q.where)
@@ -598,7 +744,7 @@ def row_line(rows, nG):
 def otf_expected(case):
     """the user's time condition, alias-stripped, as the library prints it"""
     parse_sql = _imports()[0]
-    q = parse_sql(case.get('part_sql') or case['sql'], 'mindsdb')
+    q = parse_sql(case.get('otf_sql') or case.get('part_sql') or case['sql'], 'mindsdb')
     _, _, _, _, ast, _ = _imports()
     found = []
 
@@ -634,7 +780,8 @@ def norm_cond(n):
     if isinstance(n, ast.BinaryOperation) and op in MIRROR and not isinstance(args[0], ast.Identifier) \
             and isinstance(args[1], ast.Identifier):
         op, args = MIRROR[op], [args[1], args[0]]
-    return (op, [str(a) for a in args])
+    # column names are matched case-insensitively
+    return (op, [str(a).lower() if isinstance(a, ast.Identifier) else str(a) for a in args])
 
 
 def probe_case(case, tables):
@@ -646,6 +793,10 @@ def probe_case(case, tables):
         d = dict(desc=desc, sig=sig, sql=case['sql'], nG=case['nG'], window=case['window'])
         if case.get('meta'):
             d['meta'] = case['meta']; d['foreign_column'] = case.get('foreign')
+        if case.get('cat'):
+            d['cat'] = case['cat']
+        if case.get('dbt'):
+            d.update(dbt=True, ilim=case['ilim'], olim=case['olim'])
         if case.get('multi'):
             d.update(join_index=case['join_index'], n_joins=case['n_joins'], models=case['models'], part_sql=case['part_sql'])
         d.update(kw)
@@ -653,6 +804,18 @@ def probe_case(case, tables):
         fails.append(d)
 
     line, plan, err = canon_real(case)
+    if case['kind'] == 'dbtx':
+        # a clause of the OUTER query of the dbt form: it must be honoured or rejected; it is *ignored* when the
+        # statement is planned exactly like the statement without it
+        if line == 'planning':
+            return fails
+        line0, _, _ = canon_real(dict(case, sql=case['sql_without']))
+        if line == 'crash':
+            fail('crash:' + err.split(':')[0], 'planner raises %s' % err)
+        elif line == line0:
+            fail('dbt-outer-ignored:%s' % case['what'], 'the outer %s of a dbt-form query is neither applied nor rejected: '
+                 'the plan is the plan of the statement without it' % case['what'], without=case['sql_without'], plan=line)
+        return fails
     if case['expect'] == 'planning':
         if line == 'planning':
             return fails
@@ -691,7 +854,7 @@ def probe_case(case, tables):
             ok = ok and (q.limit is None or q.limit.value == case['window'])
         if part is not None:
             pq = part.query
-            ok = ok and pq.distinct and [t.parts[-1] for t in pq.targets] == GROUPS[:nG] and pq.limit is None \
+            ok = ok and pq.distinct and [t.parts[-1] for t in pq.targets] == (case.get('cat') or {}).get('groups', GROUPS)[:nG] and pq.limit is None \
                 and not pq.order_by and data.values == part.result and data.reduce == 'union' \
                 and pq.from_table.parts[-1] == 'tbl' and part.integration == 'int'
         if len(subs) > 1:
@@ -862,11 +1025,12 @@ def run(chk):
     cases = fixed_cases() + collision_cases(rng, 240 if not deep else 1500) + [gen_case(rng) for _ in range(n_cases)]
     for _ in range(150 if not deep else 1500):      # statements with more than one time-series join
         cases += gen_multi(rng)
+    cases += [gen_dbt(rng) for _ in range(250 if not deep else 2500)]      # data operand written as a sub-select
     dist = {}
     plines, pmeta, elines, emeta = [], [], [], []
     unabs = 0
     for case in cases:
-        key = '%s%s/%s' % ('multi-' if case.get('multi') else '', case['kind'], case.get('cls') or case.get('rej') or case.get('misc'))
+        key = '%s%s/%s' % ('multi-' if case.get('multi') else 'dbt-' if case.get('dbt') else '', case['kind'], case.get('cls') or case.get('rej') or case.get('misc') or case.get('what'))
         dist[key] = dist.get(key, 0) + 1
         chk.count(case['sql'] + '|%d|%d|%d' % (case['nG'], case['window'], case.get('join_index', 0)))
         # --- the model input is abstracted from the *parsed query* (not from the generator's own idea of it)
@@ -875,7 +1039,15 @@ def run(chk):
             q = parse_sql(case.get('part_sql') or case['sql'], 'mindsdb')
             if case.get('meta'):
                 raise Unabstractable('name-collision stream is probe-only')
-            aw = None if q.where is None else absW(q.where, case['nG'])
+            if case.get('dbt'):
+                fl, il, ol, iw, ow = dbt_abs(q, case['nG'])
+                if case['kind'] != 'dbtx' and (fl, il, ol) != (case['flags'], case['ilim'], case['olim']):
+                    chk.oblige('harness:abstraction', 'correspondence', False,
+                               'generator/abstraction mismatch (dbt): %s for %s' % ((fl, il, ol), case['sql']))
+                case.update(flags=fl, ilim=il, olim=ol, absw_dbt=(iw, ow))
+                aw = None
+            else:
+                aw = None if q.where is None else absW(q.where, case['nG'])
             if case.get('absw') and aw != case['absw']:
                 chk.oblige('harness:abstraction', 'correspondence', False,
                            'generator/abstraction mismatch: %s vs %s for %s' % (aw, case['absw'], case['sql']))
@@ -961,6 +1133,8 @@ def run(chk):
                             'envOk e m.nG → ∃ L, WindowSpec m.window e m.nG tc q.whereC T L ∧ (fetched e T pl.selects).Perm (condRows e m.nG tc q.whereC T ++ L)'))
     chk.samples.append(dict(theorem='C15_rows_spellings: ∀ m q tl w, q.whereC = some w → plain q → tcTree m.nG tl.toW w → ∃ pl, planTS Cfg.pinned m q = ok pl ∧ '
                             '∀ e T, envOk e m.nG → ∃ L, WindowSpecL m.window e m.nG tl w T L ∧ (fetched e T pl.selects).Perm (condRowsL e m.nG tl w T ++ L)'))
+    chk.samples.append(dict(theorem='C15_dbt_limit: planDbt cfg m outer inner = ok pl → pl.limitStep = minLimit inner.limit outer.limit '
+                            '(= some (min a b) when both are present, the present one otherwise)'))
     chk.samples.append(dict(theorem='C15_reject_where: q.whereC = some w → w.isOperation → (opsOk w = false ∨ colsOk m.nG w = false ∨ andOk w = false) → '
                             'planTS Cfg.pinned m q = planning;  C15_no_crash: planTS cfg m q ≠ crash;  C15_otf_partial: output filter = user condition except `t = c` (KF-C15-1)'))
     return chk.finish(assumptions=ASSUME)
@@ -973,7 +1147,7 @@ def replay(path):
         print(json.dumps(data, indent=1)[:3000])
         return 1
     print('failure:', json.dumps({k: v for k, v in f.items() if k not in ('class',)}, default=str)[:1500])
-    case = dict(sql=f['sql'], nG=f['nG'], window=f['window'], meta=f.get('meta'), models=f.get('models'),
+    case = dict(sql=f['sql'], nG=f['nG'], window=f['window'], meta=f.get('meta'), models=f.get('models'), cat=f.get('cat'),
                 join_index=f.get('join_index', 0), n_joins=f.get('n_joins', 1))
     line, plan, err = canon_real(case)
     print('real plan now:', line, err or '')
